@@ -71,7 +71,7 @@ IntendedFrags(s, o, opps) == LET w2 == IntendedSplit(s, o, opps) IN IF o.bw THEN
 
 ParaRanges(e) == SplitEndingRanges(e.text, e.o.crlf)
 ParaText(e, prs, j) == SubSeq(e.text, prs[j][1], prs[j][2])
-ParaOpps(e, j) == IF e.o.sep = "uax" THEN ToSet(e.paras[j].opps) ELSE {}
+ParaOpps(e, j) == IF e.o.sep \in {"uax", "custom"} THEN ToSet(e.paras[j].opps) ELSE {}
 \* index of the paragraph containing text position i (0 if i is in a line ending)
 ParaOfPos(prs, i) == LET c == {j \in 1..Len(prs) : prs[j][1] <= i /\ i <= prs[j][2]} IN IF c = {} THEN 0 ELSE CHOOSE j \in c : TRUE
 
@@ -220,7 +220,14 @@ TextWellFormed(e) == WellFormed(e.text) /\ WellFormed(e.o.ii) /\ WellFormed(e.o.
 Judge_wrap(e) ==
   LET wk == TextWalk(e) usable == HintUsable(e) IN
   On("C04", << Chk("C04", "VERDICT", "wrap panicked", Ok(e)) >>) \o
-  (IF ~Ok(e) THEN << Chk(e.tag, "VERDICT", "wrap panicked", e.tag \notin Sel) >> ELSE
+  (IF ~Ok(e) THEN << Chk(e.tag, "VERDICT", "wrap panicked", e.tag \notin Sel) >>
+   ELSE IF e.o.sep = "custom"
+   THEN \* a custom word separator is outside the quantifier of every listed property: conformance (drift) only
+        (IF e.o.alg = "ff"
+         THEN << Chk("C01", "DRIFT", "wrap with a custom separator differs from the operational model",
+                     LineStringsOf(e) = LineStrings(WrapFF(e.text, e.o, WrapOppss(e)))) >>
+         ELSE <<>>)
+   ELSE
   << Chk("TOOL", "TOOL", "paragraph oracle data inconsistent with the specification's split / strip", OracleConsistent(e)) >> \o
   On("C08", << Chk("C08", "VERDICT", "a line does not start with the configured indent", C08ok(e)) >>) \o
   On("C01", << Chk("C01", "VERDICT", "lines are not indent + in-order slices of the input (or a needlessly owned / space-terminated slice)", C01ok(e, wk)) >>) \o
